@@ -198,7 +198,7 @@ Proof.
   assert (Hupd : forall insts i it it', nth_opt insts i = Some it -> is_live_original it' = is_live_original it ->
             length (filter is_live_original (upd insts i it')) = length (filter is_live_original insts)).
   { intros. now apply (filter_upd_same_flags insts i it it'). }
-  destruct b as [i m a|i|i|i|i|i|i|i|i m a|n].
+  destruct b as [i m a|i|i|i|i|i|i|i|i m a|n|].
   - (* call *)
     destruct (live_inst w i) as [it|] eqn:Hl; [|cbn; lia]. apply live_inst_nth in Hl as [Hn _].
     destruct (call _ _ _ _ _ _ _ _) as [s' act]. cbn [fst]. unfold after_call, originals.
@@ -237,6 +237,7 @@ Proof.
     destruct (nth_opt (w_insts w1) i) as [it1|] eqn:Hn1; cbn [fst]; [|exact Ho].
     rewrite (originals_kill w1 i it1 Hn1). lia.
   - cbn [fst]. unfold originals, set_armed. cbn [w_insts]. lia.
+  - destruct (live_values _ _ _). cbn. lia.
 Qed.
 
 Theorem originals_run es : forall w, (originals (fold_left (fun w e => fst (step w e)) es w) <= originals w)%nat.
@@ -255,10 +256,10 @@ Proof. intros H1 Hn Ho. rewrite (originals_kill w i it Hn), Ho, H1. reflexivity.
 Theorem dead_instance_inert w x b :
   (forall i, match b with
              | BCall j _ _ | BCallOwn j _ _ => j = i | BClone j | BDrop j | BVerify j | BNvid j | BReport j
-             | BLend j | BCount j => j = i | BArm _ => False end -> live_inst w i = None) ->
-  (match b with BArm _ => False | _ => True end) ->
+             | BLend j | BCount j => j = i | BArm _ | BLive => False end -> live_inst w i = None) ->
+  (match b with BArm _ | BLive => False | _ => True end) ->
   step w {| ev_ctx := x; ev_base := b |} = (w, "invalid"%string).
 Proof.
   intros H Hb. unfold step. cbn [ev_base ev_ctx].
-  destruct b as [i m a|i|i|i|i|i|i|i|i m a|n]; try contradiction; now rewrite (H i eq_refl).
+  destruct b as [i m a|i|i|i|i|i|i|i|i m a|n|]; try contradiction; now rewrite (H i eq_refl).
 Qed.
